@@ -68,6 +68,17 @@ Theorem C12_choose_complete : forall strat burn uxa coins hours e,
 Proof. exact choose_complete. Qed.
 Print Assumptions C12_choose_complete.
 
+(* Create itself fails with "balance / hours are not sufficient" only when the
+   offered outputs cannot cover the requested coins / the hours left after the fee *)
+Theorem C12_create_complete : forall burn p uxb e,
+  1 <= burn < 2 ^ 32 -> Forall ux_range uxb -> csum uxb < 2 ^ 64 -> hsum uxb < 2 ^ 64 ->
+  Forall out_range (p_to p) ->
+  create burn p uxb = Val (inl e) ->
+  (e = ErrInsufficientBalance -> csum uxb < ocsum (p_to p)) /\
+  (e = ErrInsufficientHours -> ocsum (p_to p) <= csum uxb /\ remaining_of burn (hsum uxb) < ohsum (p_to p)).
+Proof. exact create_complete. Qed.
+Print Assumptions C12_create_complete.
+
 (* non-vacuity, and the F3 shape: 1 input of 2 coins / 100 h, destination
    (b, 1 coin, 45 h), change address b: the change output would equal the
    requested output; create refuses with a user-level error *)
